@@ -129,6 +129,9 @@ pub fn worker(tier: &str, seed: u64, from: u64, to: u64, _extra: &[String]) -> A
         if n > 16 {
             agg.probe("library-larger-than-every-pool", 1);
         }
+        if reference.iter().find(|(l, _)| l == "search_paths").map(|(_, sp)| sp.lines().count() >= 2000).unwrap_or(false) {
+            agg.probe("library-with-2000+-search-paths", 1);
+        }
         // ties present? (equal rank and key among search paths)
         if let Some((_, sp)) = reference.iter().find(|(l, _)| l == "search_paths") {
             let mut seen = std::collections::BTreeSet::new();
